@@ -34,6 +34,96 @@ class Verdict:
                 "unspecified": self.unspecified, "rules_checked": self.rules_checked}
 
 
+def decision_pins(handles, model, skip_tasks=()):
+    """the decision vector of a model snapshot as pins: task times / durations / scheduled
+    flags, selections, dynamic busy spans.  Auxiliary unknowns stay free."""
+    pins = {}
+    unsched = set(skip_tasks)
+    for name, v in model.items():
+        if name.startswith("x:") and v is False:
+            unsched.add(name[2:])
+    for name, v in model.items():
+        kind, _, rest = name.partition(":")
+        if kind in ("s", "e", "d"):
+            if rest in unsched:
+                continue
+            pins[name] = v
+        elif kind in ("x", "sel"):
+            pins[name] = v
+        elif kind in ("lo", "hi"):
+            w, _, t = rest.partition(":")
+            if (w, t) in handles.dynamic_pairs and t not in unsched:
+                pins[name] = v
+    return pins
+
+
+def resolve_perturb(world, cl, step, st):
+    """F3: take the last schedule this client returned, change one decision by a small
+    amount (shift / stretch a task, flip a flag, move a dynamic span, move to a boundary)
+    and try to make the engine return exactly that neighbour.  Whether the neighbour is
+    valid is for the oracle to say once (if) the library returns it."""
+    if not cl.models or cl.models[-1] is None:
+        return None
+    m = dict(cl.models[-1])
+    h = cl.handles
+    rng = keyed_rng(world.run_seed, "perturb", st.get("key", 0))
+    spec = cl.spec
+    tasks = {t["id"]: t for t in spec["tasks"]}
+    vals, hz = h.time_values()
+    ops = []
+    for tid, t in tasks.items():
+        sched = m.get(f"x:{tid}", True)
+        if sched:
+            ops.append(("shift", tid))
+            if t["kind"] == "variable":
+                ops.append(("stretch", tid))
+            if f"x:{tid}" in m:
+                ops.append(("unschedule", tid))
+        elif f"x:{tid}" in m:
+            ops.append(("schedule", tid))
+    for name in m:
+        if name.startswith("sel:"):
+            ops.append(("flipsel", name))
+    for (w, t) in sorted(h.dynamic_pairs):
+        if m.get(f"x:{t}", True):
+            ops.append(("dyn", (w, t)))
+    if not ops:
+        return None
+    skip = set()
+    for _ in range(rng.choice([1, 1, 1, 2])):
+        op, arg = rng.choice(ops)
+        if op == "shift":
+            delta = rng.choice([-2, -1, -1, 1, 1, 2]) if rng.random() < 0.8 else rng.choice([-m[f"s:{arg}"], hz - m[f"e:{arg}"], -m[f"s:{arg}"] - 1, hz - m[f"e:{arg}"] + 1])
+            m[f"s:{arg}"] += delta
+            m[f"e:{arg}"] += delta
+        elif op == "stretch":
+            delta = rng.choice([-1, 1, 1, 2])
+            m[f"e:{arg}"] += delta
+            if f"d:{arg}" in m:
+                m[f"d:{arg}"] += delta
+        elif op == "unschedule":
+            m[f"x:{arg}"] = False
+            skip.add(arg)
+        elif op == "schedule":
+            t = tasks[arg]
+            d = t.get("duration") or (0 if t["kind"] == "zero" else max(t.get("min", 0), (t.get("allowed") or [0])[0]))
+            s0 = rng.choice(vals)
+            m[f"x:{arg}"] = True
+            m[f"s:{arg}"], m[f"e:{arg}"] = s0, s0 + d
+            if t["kind"] == "variable":
+                m[f"d:{arg}"] = d
+        elif op == "flipsel":
+            m[arg] = not m[arg]
+        elif op == "dyn":
+            w, t = arg
+            which = rng.choice(["lo", "hi"])
+            m[f"{which}:{w}:{t}"] = m.get(f"{which}:{w}:{t}", 0) + rng.choice([-1, 1])
+    pins = decision_pins(h, m, skip_tasks=skip)
+    # tasks that were unscheduled in the source model keep free times
+    out = {"mode": "pin", "pins": pins, "tag": "perturb"}
+    return out
+
+
 STEER_MODES = [None, None, {"mode": "greedy"}, {"mode": "greedy", "bias": "edge"}, {"mode": "greedy", "bias": "high"},
                {"mode": "greedy", "bias": "low"}, {"mode": "greedy", "groups": ["time", "flag", "busy", "horizon"]}]
 
@@ -43,7 +133,7 @@ class Check:
     title = ""
     props = frozenset()
     technique = "deterministic simulation: seeded engine-model steering + fault injection, reference-semantics oracle"
-    resolvers = {}
+    resolvers = {"perturb": resolve_perturb}
     per_run_timeout = 60
     quick_runs = 1500
     thorough_runs = 30000
@@ -81,7 +171,9 @@ class Check:
             cfg.pop("optimize_priority", None)
         return cfg
 
-    def steer(self, rng, key):
+    def steer(self, rng, key, later=False):
+        if later and rng.random() < 0.5:
+            return {"mode": "perturb", "key": key}
         st = rng.choice(STEER_MODES)
         if st is None:
             return None
@@ -107,7 +199,7 @@ class Check:
         for j in range(n_more):
             step = {"client": "A", "op": "find_another", "if_model": True}
             if not fault_free:
-                st = self.steer(rng, 10 + j)
+                st = self.steer(rng, 10 + j, later=True)
                 if st is not None:
                     step["default"] = {"steer": st}
             plan["script"].append(step)
